@@ -46,6 +46,14 @@ FUN = {
     # made by exec() under pseudo file names without a linecache entry
     50: dict(expr='ex0', call='ex0(%d)', shape=('Loop', 12)),
     51: dict(expr='ex1', call='ex1(%d)', shape=('Loop', 13)),
+    # a method inherited by a class of module c20m_d from a base class of ANOTHER module, and the class's own method
+    60: dict(expr='c20base.Base.describe', call='c20m_d.KD().describe(%d)', shape=('Loop', 14)),
+    61: dict(expr='c20m_d.KD.own', call='c20m_d.KD().own(%d)', shape=('Loop', 15)),
+    # three byte-identical functions on the same line numbers of three files.  Only ever named all together and
+    # only called when named (an unnamed byte-identical twin is C04's finding).
+    70: dict(expr='c20t_1.trip', call='c20t_1.trip(%d)', shape=('Loop', 16)),
+    71: dict(expr='c20t_2.trip', call='c20t_2.trip(%d)', shape=('Loop', 16)),
+    72: dict(expr='c20t_3.trip', call='c20t_3.trip(%d)', shape=('Loop', 16)),
     10: dict(expr='c20m_a.a0', call='c20m_a.a0(%d)', shape=('Loop', 3)),
     11: dict(expr='c20m_a.a1', call='c20m_a.a1(%d)', shape=('Loop', 4)),
     12: dict(expr='c20m_a.KA.am', call='c20m_a.KA().am(%d)', shape=('Loop', 5)),
@@ -60,8 +68,9 @@ FUN = {
 }
 # what add_module registers for each name -m can take; a dotted name means the sub-module, not its parent package
 MODS = {'c20m_a': [10, 11, 12, 13, 14], 'c20m_b': [20, 21, 22], 'c20pkg': [30, 31], 'c20pkg.sub': [32, 33],
-        'c20m_w': [40, 41]}
-CALLABLE = [0, 1, 2, 3, 7, 8, 10, 11, 12, 13, 14, 20, 21, 22, 30, 31, 32, 33, 50, 51]
+        'c20m_w': [40, 41], 'c20m_d': [61]}     # -m c20m_d: KD.own only; the inherited Base.describe belongs to c20base
+CALLABLE = [0, 1, 2, 3, 7, 8, 10, 11, 12, 13, 14, 20, 21, 22, 30, 31, 32, 33, 50, 51, 60, 61]
+TRIPLET = [70, 71, 72]
 TWINS = [40, 41]
 RAISER = {'SysExit': 4, 'KbdInt': 5, 'ExcOther': 6}
 # coarser than the timer's 1e-9 s, equal to it, and finer (every cell then needs the wide-number formats)
@@ -159,6 +168,15 @@ def rand_inv(rnd):
     for fid in f:
         if fid in CALLABLE and rnd.random() < 0.6:
             top.insert(rnd.randint(0, len(top)), (fid, rnd.choice([0, 1, 2, 4])))
+    if rnd.random() < 0.12:   # the byte-identical triplet: all three named, each run a different number of times
+        order = rnd.sample(TRIPLET, 3)
+        f = [x for x in f if x not in TRIPLET] + order
+        for fid, k in zip(TRIPLET, (1, 2, 3)):
+            for _ in range(k):
+                top.insert(rnd.randint(0, len(top)), (fid, rnd.choice([0, 1, 2])))
+    if 'c20m_d' in m and rnd.random() < 0.8:   # the inherited method runs too
+        top.insert(rnd.randint(0, len(top)), (60, rnd.choice([1, 2])))
+        top.insert(rnd.randint(0, len(top)), (61, rnd.choice([1, 3])))
     if 'c20m_w' in m:   # both twins run, different numbers of times
         for fid, k in ((40, rnd.randint(1, 2)), (41, rnd.randint(1, 3))):
             for _ in range(k):
@@ -191,6 +209,11 @@ def gen_cases(tier, rnd):
         cases.append(dict(pre_profile=pre, invs=[mk_inv(f=[14], m=['c20m_a'], r=True, top=[(13, 2), (14, 3), (10, 1)])]))
         cases.append(dict(pre_profile=pre, invs=[mk_inv(m=['c20m_w'], r=True, D=True, top=[(40, 2), (41, 1), (41, 3), (41, 0), (0, 1)]),
                                                  mk_inv(m=['c20m_w', 'c20m_b'], r=True, top=[(41, 2), (40, 1), (20, 1)])]))
+        # three byte-identical functions named together; inherited method of a foreign base class under -m
+        cases.append(dict(pre_profile=pre, invs=[mk_inv(f=[70, 71, 72], r=True, D=True, top=[(70, 1), (71, 2), (71, 0), (72, 3), (72, 1), (72, 1), (0, 1)]),
+                                                 mk_inv(f=[72, 70, 71, 0], top=[(72, 1), (70, 2), (70, 2), (71, 1), (71, 1), (71, 1)], outcome='SysExit')]))
+        cases.append(dict(pre_profile=pre, invs=[mk_inv(m=['c20m_d'], r=True, T=True, top=[(60, 2), (61, 1), (60, 1), (0, 1)]),
+                                                 mk_inv(f=[60], m=['c20m_d'], r=True, top=[(60, 1), (61, 2)])]))
         # a statement that does not compile, then ordinary ones in the same session
         cases.append(dict(pre_profile=pre, invs=[mk_inv(f=[0], r=True, top=[(0, 10)], syntax=True), mk_inv(f=[0], r=True, top=[(0, 2)]),
                                                  mk_inv(m=['c20m_b'], D=True, top=[(20, 1)], syntax=True), mk_inv(f=[1], top=[(1, 1)], outcome='KbdInt')]))
